@@ -16,6 +16,9 @@ pub enum Op {
     Write(u8),
     /// extend from an iterator of this length
     Extend(u8),
+    /// extend from an honest iterator of this length whose size hint is inexact: a filter
+    /// (hint (0, Some(n))) or an exact part chained with a filtered one (hint (k, Some(n)))
+    ExtendInexact(u8, bool),
     /// fill from a reader holding this many bytes
     Read(u8),
     /// nested sub-buffer performing one inner op, then released
@@ -47,6 +50,8 @@ pub fn ops() -> Vec<Op> {
         Op::Write(1),
         Op::Write(3),
         Op::Extend(2),
+        Op::ExtendInexact(2, false),
+        Op::ExtendInexact(3, true),
         Op::Read(0),
         Op::Read(1),
         Op::Read(3),
@@ -187,6 +192,17 @@ fn drive<'d, 's>(mut b: BufferRef<'d, 's>, seq: &[Op], m: &mut Model, take: bool
                 let r = b.extend(bytes.iter().cloned());
                 let e = m.write(&bytes);
                 check(r.is_ok() == e.is_ok(), "extend: capacity error differs from the model")?;
+            }
+            Op::ExtendInexact(n, chained) => {
+                let bytes = m.fresh(n);
+                let r = if chained {
+                    let (a, z) = bytes.split_at(1.min(bytes.len()));
+                    b.extend(a.iter().cloned().chain(z.iter().cloned().filter(|_| true)))
+                } else {
+                    b.extend(bytes.iter().cloned().filter(|_| true))
+                };
+                let e = m.write(&bytes);
+                check(r.is_ok() == e.is_ok(), "extend from an iterator with an inexact size hint: capacity error differs from the model")?;
             }
             Op::Read(n) => {
                 let bytes = m.fresh(n);
